@@ -645,12 +645,21 @@ theorem translated_outputfunc_init_is_model (a : FuncArgs) :
       = constructFunc a :=
   ofunc_init_model a
 
-/-- `OutputAsync.start`: `super().start()`, then the queue is created, then the control task of the selected
-    mode; `init_regular` sets the output to 0 (no run is active) -/
+/-- `OutputAsync.start`: `super().start()`, then the queue is created, then -- the queue exists -- the control
+    task of the selected mode; `init_regular` sets the output to 0 (no run is active) -/
 theorem translated_outputasync_start_is_model (st : Option Int) (s : Attrs) :
-    oasync_start (initP st) s = ({ s with started := true, queue := true, ctrlTask := true }, .next ()) ∧
+    oasync_start (initP st) s
+      = ({ s with started := true, queue := true, ctrlTask := true,
+                  startLog := s.startLog ++ ["super().start", "queue", "control task"] }, .next ()) ∧
     oasync_init_regular (initP st) s = ({ s with output := some 0 }, .next ()) := by
-  constructor <;> rfl
+  constructor
+  · simp [oasync_start, initP, initP0, M.bind, M.modify, M.pure]
+  · rfl
+
+/-- `OutputFunc.init_regular`: the output of an OutputFunc is False -/
+theorem translated_outputfunc_init_regular_is_model (cfg : FuncCfg) (f : Func) (sd) (log : List FEv) :
+    (ofunc_init_regular (funcP cfg f sd) cfg.fArgs cfg.fKwargs (List.range cfg.nError) (List.range cfg.nSuccess) log).1
+      = initRegular log := rfl
 
 /-- **`OutputFunc._event_put` as translated IS the model's `eventPut`**: the items named by f_args / f_kwargs are
     taken from the event data (a missing key raises KeyError before anything is called), the function is
@@ -694,7 +703,13 @@ theorem translated_outputfunc_stop_is_model (cfg : FuncCfg) (f : Func) (log : Li
   cases hd : cfg.stopData with
   | none => simp [hs, M.pure]
   | some d =>
-    simp only [Option.isSome_some, if_true, sdRunModel, hd, M.bind]
+    have hsd : ∀ l, sdRunModel cfg f l =
+        match eventPut cfg f l d with
+        | (l', .keyError k) => (l', .raise (.keyError k))
+        | (l', .result v) => (l', .next ("result", .inr v))
+        | (l', .error e) => (l', .next ("error", .inl (.user e))) := by
+      intro l; unfold sdRunModel; rw [hd]; rfl
+    simp only [Option.isSome_some, Bool.not_true, if_true, Bool.false_eq_true, if_false, hsd, M.bind, M.pure]
     cases hr : eventPut cfg f log d with
     | mk l res => cases res <;> simp [hs, M.pure]
 
